@@ -46,7 +46,7 @@ def cases(draw, rot=0):
         'src': draw(st.sampled_from(['cwd', 'cwd', 'sub', 'abs', 'symlink'])),
         'incfile': draw(st.booleans()),
         # older output files: none / unrelated contents / the -o file already holds exactly this program (a rebuild), the others stale
-        'old': draw(st.sampled_from([False, True, True, 'same'])),
+        'old': draw(st.sampled_from([False, True, True, 'same', 'empty'])),     # 'empty': the older -o file has no bytes
         'incname': draw(st.sampled_from(['inc', 'inc', 'inc:v2', 'my inc'])),
         'irel': draw(st.booleans()),      # the -i directory given relative to the working directory 'tags': prog.tags, 'verbose': draw(st.integers(0, 3)) == 0,
     }
@@ -94,7 +94,7 @@ def judge(c, res):
         if c['old']:
             for k, p in paths.items():
                 with open(p, 'wb') as f:
-                    f.write(ref[1] if (c['old'] == 'same' and k == 'out' and ref[0] == 'ok') else SENTINEL[k])
+                    f.write(ref[1] if (c['old'] == 'same' and k == 'out' and ref[0] == 'ok') else b'' if (c['old'] == 'empty' and k == 'out') else SENTINEL[k])
         before = snapshot(root)
         argv = [main_arg]
         if c['compress']:
@@ -107,7 +107,8 @@ def judge(c, res):
         if c['hexoff'] is not None:
             argv = ['--hex-offset', c['hexoff']] + argv
         if c['defs']:
-            argv = ['--include-definitions'] + argv
+            # before or after the other options (in particular after -i)
+            argv = (['--include-definitions'] + argv) if len(c['lines']) % 2 else (argv[:-1] + ['--include-definitions'] + argv[-1:])
         if c.get('verbose'):
             argv = ['-v'] + argv
         p = subprocess.run(CLI + argv, cwd=work, env=env.repo_python_env(), stdout=subprocess.PIPE, stderr=subprocess.PIPE, timeout=120)
